@@ -17,6 +17,8 @@ from concurrent.futures import ProcessPoolExecutor, as_completed
 
 VERIF = os.path.dirname(os.path.dirname(os.path.abspath(__file__)))
 REPO = os.environ.get('VERIF_REPO', '/repo')
+EVIDENCE_DIR = os.environ.get('VERIF_EVIDENCE_DIR', os.path.join(VERIF, 'evidence'))
+REPLAY_DIR = os.environ.get('VERIF_REPLAY_DIR', os.path.join(VERIF, 'replays'))
 DEFAULT_SEED = 20260925
 RUN_WALL_LIMIT_S = 60           # one simulated run may not take longer (wall) than this
 
@@ -208,7 +210,7 @@ def minimise(mod, scn, sig, budget_s=90.0):
 
 def write_replay(mod, scn, sig, pv, master, index, original_seed):
     res = safe_execute(mod, copy.deepcopy(scn))
-    d = os.path.join(VERIF, 'replays')
+    d = REPLAY_DIR
     os.makedirs(d, exist_ok=True)
     h = hashlib.sha256(sig.encode()).hexdigest()[:10]
     path = os.path.join(d, '%s-%s-%d.json' % (mod.ID, h, index))
@@ -361,7 +363,7 @@ def explore(mod, tier, master, runs_override=None, workers=None, no_selftest=Fal
     if agg['harness']:
         rc = 2
         i, msg, scn = agg['harness'][0]
-        p = os.path.join(VERIF, 'replays', '%s-harness-%d.json' % (pid, i))
+        p = os.path.join(REPLAY_DIR, '%s-harness-%d.json' % (pid, i))
         os.makedirs(os.path.dirname(p), exist_ok=True)
         json.dump({'property': pid, 'harness_error': msg, 'scenario': scn}, open(p, 'w'), indent=1)
         lines.append('HARNESS-ERROR property=%s runs=%d first=%s\n%s' % (pid, len(agg['harness']), p, msg))
@@ -443,8 +445,8 @@ def explore(mod, tier, master, runs_override=None, workers=None, no_selftest=Fal
     ev = {'property_id': pid, 'tier': tier, 'seed': master, 'level': mod.LEVEL, 'coverage': cov,
           'assumptions': ASSUMPTIONS + list(getattr(mod, 'ASSUMPTIONS', [])), 'wall_s': round(wall, 2),
           'violations': len(new)}
-    os.makedirs(os.path.join(VERIF, 'evidence'), exist_ok=True)
-    json.dump(ev, open(os.path.join(VERIF, 'evidence', pid + '.json'), 'w'), indent=1, sort_keys=True, default=str)
+    os.makedirs(EVIDENCE_DIR, exist_ok=True)
+    json.dump(ev, open(os.path.join(EVIDENCE_DIR, pid + '.json'), 'w'), indent=1, sort_keys=True, default=str)
     for l in lines:
         print(l)
     print('%s tier=%s seed=%d runs=%d nontrivial=%d violations=%d known=%d wall=%.1fs rc=%d' % (
